@@ -107,7 +107,10 @@ def ensure_build(variant="std"):
                         os.unlink(os.path.join(src, g))
                     except OSError:
                         pass
-        sh(["rsync", "-a", "--checksum", "--files-from=" + lst, REPO + "/", src + "/"], check=True)
+        # files that vanish between the listing and the copy (a build or test run in /repo) are not part of the tree
+        rc, out = sh(["rsync", "-a", "--checksum", "--ignore-missing-args", "--files-from=" + lst, REPO + "/", src + "/"])
+        if rc not in (0, 23, 24):
+            raise RuntimeError("rsync of /repo failed (%s): %s" % (rc, out[-2000:]))
         shutil.copy(lst, old)
         cflags = "-O1 -g -D%s" % GUARD
         ldflags = ""
